@@ -185,7 +185,42 @@ theorem spec_reader_rejects_foreign_names (lx : Lex) :
   · simp [readPoint, allowed, attrNames, attrSpecs, elements, List.lookup, req, opt]
   · simp [readSmooth, List.lookup]
 
-/-- non-vacuity: a concrete codec (unary numerals are enough here) and a concrete glyph -/
-example : (fontinfoFields.length = 108) := by decide
+/-! non-vacuity of the two codec hypotheses: a concrete lexical codec (unary numerals, `,`-terminated) satisfies them -/
+
+def encU : List Nat → List Char
+  | [] => []
+  | n :: r => List.replicate n 'a' ++ ',' :: encU r
+
+def decU : List Char → Nat → List Nat
+  | [], _ => []
+  | c :: r, k => if c = ',' then k :: decU r 0 else decU r (k + 1)
+
+theorem decU_replicate (n k : Nat) (rest : List Char) :
+    decU (List.replicate n 'a' ++ rest) k = decU rest (k + n) := by
+  induction n generalizing k with
+  | zero => simp
+  | succ m ih =>
+    simp only [List.replicate_succ, List.cons_append, decU]
+    rw [if_neg (by decide), ih]; congr 1; omega
+
+theorem decU_encU (ns : List Nat) : decU (encU ns) 0 = ns := by
+  induction ns with
+  | nil => rfl
+  | cons n r ih => simp [encU, decU_replicate, decU, ih]
+
+def unaryLex : Lex := { nums := fun s => some (decU s.toList 0), hex := fun s => some s.length }
+def unaryRender : Render :=
+  { nums := fun ns => String.ofList (encU ns), hex := fun n => String.ofList (List.replicate n 'a') }
+
+theorem unary_laws : (∀ ns, unaryLex.nums (unaryRender.nums ns) = some ns) ∧
+    (∀ n, unaryLex.hex (unaryRender.hex n) = some n) := by
+  constructor
+  · intro ns; simp [unaryLex, unaryRender, decU_encU]
+  · intro n; simp [unaryLex, unaryRender]
+
+example (g : GlyphD) : specRead unaryLex (specWrite unaryRender g) = some g :=
+  spec_reader_finds_values unaryLex unaryRender unary_laws.1 unary_laws.2 g
+
+example : fontinfoFields.length = 108 ∧ fontinfoKeys.length = 108 := by decide
 
 end C05
